@@ -26,6 +26,7 @@ Accepted shapes (anything else raises TieBroken — the translator never guesses
 """
 import ast
 from .pyexpr import ExprT, TieBroken, find_class, find_func, strip_doc, sha
+from .normalize import parse_file, parse as norm_parse
 
 SRC = 'bobocep/cep/phenom/pattern/builder.py'
 SRC_PRED = 'bobocep/cep/phenom/pattern/predicate.py'
@@ -262,8 +263,7 @@ def _cast_method(cls, name):
 
 
 def translate(repo):
-    src = (repo / SRC).read_text()
-    tree = ast.parse(src)
+    src, tree = parse_file(repo, SRC)
     cls = find_class(tree, 'BoboPatternBuilder')
     hashes = {}
 
@@ -293,8 +293,7 @@ def translate(repo):
         raise TieBroken('BoboPatternBuilderError bases changed')
 
     # typed predicate
-    psrc = (repo / SRC_PRED).read_text()
-    ptree = ast.parse(psrc)
+    psrc, ptree = parse_file(repo, SRC_PRED)
     pcls = find_class(ptree, 'BoboPredicateCallType')
     ev = find_func(pcls, 'evaluate')
     hashes[f'{SRC_PRED}::BoboPredicateCallType.evaluate'] = sha(ast.get_source_segment(psrc, ev))
@@ -317,7 +316,7 @@ def translate(repo):
     cast_rows = []
     for name, path in SRC_EV.items():
         esrc = (repo / path).read_text()
-        ecls = find_class(ast.parse(esrc), name)
+        ecls = find_class(norm_parse(esrc, str(path)), name)
         params = _cast_method(ecls, name)
         hashes[f'{path}::{name}.cast'] = sha(ast.get_source_segment(esrc, find_func(ecls, 'cast')))
         cast_rows.append(f'("{name}", {len(params)})')
